@@ -13,7 +13,7 @@ _TMP = None
 def tmpdir():
     global _TMP
     if _TMP is None:
-        _TMP = tempfile.mkdtemp(prefix="verif-img-", dir="/var/tmp")
+        _TMP = tempfile.mkdtemp(prefix="verif-img-", dir=os.environ.get("VERIF_RUN_TMP") or "/var/tmp")
         import atexit
         import shutil
 
